@@ -855,26 +855,51 @@ def rule_lazy_caches(ctx):
                 raise AnalysisBroken("lazy table: cache field %s not found in %s" % (cfield, cname))
             erase_name = cs["erase"].rsplit("::", 1)[-1]
 
-            def erases_always(fn, seen=None):
-                seen = seen or set()
-                if fn.key in seen or fn.body is None:
+            def is_target(expr, target):
+                if expr is None:
                     return False
-                seen.add(fn.key)
+                if target[0] == "field":
+                    tf = this_field(expr)
+                    return bool(tf and tf[1] == target[1])
+                return expr.get("k") == "DeclRefExpr" and expr["ref"].get("decl") == target[1]
+
+            def erases_always(fn, target=("field", cfield), seen=None):
+                """fn erases the cache (a field of this, or the object bound to one of fn's reference
+                parameters) on every path: directly, in a callee on `this`, or in a helper that receives
+                the cache by reference."""
+                seen = seen or set()
+                if (fn.key, target) in seen or fn.body is None:
+                    return False
+                seen.add((fn.key, target))
                 for c in fn.calls():
-                    if c.get("k") != "CXXMemberCallExpr":
-                        continue
-                    obj = F.call_object(c)
-                    if obj is None:
+                    if not _postdominates_entry(fn, c):
                         continue
                     cal = strip_targs(c.get("callee") or "")
-                    tf = this_field(obj)
-                    if tf and tf[1] == cfield and cal.rsplit("::", 1)[-1] == erase_name:
-                        if _postdominates_entry(fn, c):
-                            return True
-                    if obj.get("k") == "CXXThisExpr" and cal and _postdominates_entry(fn, c):
+                    obj = F.call_object(c) if c.get("k") == "CXXMemberCallExpr" else None
+                    if obj is not None and is_target(obj, target) and cal.rsplit("::", 1)[-1] == erase_name:
+                        return True
+                    if not cal:
+                        continue
+                    callee = None
+                    if obj is not None and obj.get("k") == "CXXThisExpr":
                         callee = model.resolve(c.get("calleeKey"), cal, _is_qualified(c))
-                        if callee is not None and erases_always(callee, seen):
+                        if callee is not None and target[0] == "field" and erases_always(callee, target, seen):
                             return True
+                    if callee is None:
+                        for f in fx.fns(cal):
+                            if f.key == c.get("calleeKey"):
+                                callee = f
+                                break
+                    if callee is None or callee.body is None:
+                        continue
+                    args = F.call_args(c)
+                    if c.get("k") == "CXXOperatorCallExpr" and c.get("memberOp"):
+                        args = args[1:]
+                    for a, prm in zip(args, callee.params):
+                        pt = prm["t"].strip()
+                        if is_target(a, target) and pt.endswith("&") and not pt.startswith("const "):
+                            if erases_always(callee, ("param", prm["decl"]), seen):
+                                return True
                 return False
 
             for m in entry_methods(model):
